@@ -167,6 +167,18 @@ Fixpoint phase_end_MZ (ts : list (nat * mzparam)) (d : nat -> C) : list (nat * m
       ((m, t') :: out, d')
   end.
 
+Fixpoint map2 {A B D : Type} (f : A -> B -> D) (l1 : list A) (l2 : list B) : list D :=
+  match l1, l2 with
+  | a :: l1', b :: l2' => f a b :: map2 f l1' l2'
+  | _, _ => []
+  end.
+
+(* V V^dagger = I on indices < n (used only to state what is not proved) *)
+Definition csum (n : nat) (f : nat -> C) : C := fold_right (fun k acc => Cadd (f k) acc) C0 (seq 0 n).
+Definition is_unitary (n : nat) (V : matrix) : Prop :=
+  forall r c, r < n -> c < n ->
+    csum n (fun k => Cmul (V r k) (Cconj (V c k))) = if r =? c then C1 else C0.
+
 End Model.
 
 Arguments C K : clear implicits.
